@@ -22,6 +22,17 @@ GENS = [c01.gen_case, c02.gen_case, c06.gen_case, c07.gen_case, c10.gen_case, c1
 
 def collide_case(rng):
     """keys that collapse to one after $$ -> $ (finalize), and self-overlapping root $merge"""
+    if rng.chance(1, 3):
+        # sibling keys that become ONE key when evaluated (interpolated keys meeting a literal key, or each other): which entry
+        # survives is fixed by the sorted traversal, never by map iteration order
+        pool = [("k", 1), ('$"k"', 2), ('$"{w}"', 3), ('$"k{e}"', 4), ("kk", 5), ('$"{w}{w}"', 6), ('$"{w}k"', 7)]
+        ks = rng.shuffle(pool)[: 2 + rng.below(4)]
+        d = {k: v for k, v in ks}
+        d["w"] = "k"
+        d["e"] = ""
+        d["n"] = {k: [v] for k, v in ks}
+        d["n"]["z"] = {k: {"deep": v} for k, v in ks}
+        return ["history", None, hist.stream_history([d])]
     if rng.chance(1, 2):
         ks = rng.shuffle(["$$$x", "$$$$x", "$$$$$x", "a$$$b", "a$$$$b", "$$", "$$$"])[: 2 + rng.below(3)]
         d = {k: i for i, k in enumerate(ks)}
@@ -46,7 +57,7 @@ def reader_case(rng):
 
 
 def gen_case(rng):
-    if rng.chance(1, 10):
+    if rng.chance(1, 8):
         return collide_case(rng)
     if rng.chance(1, 12):
         return reader_case(rng)
